@@ -215,7 +215,7 @@ def run(ctx):
                         bad.append(o)
                 ck.ob("R13b", key, not bad, f"no other {e.resource} growth precedes {e.what} under the same test",
                       site=e.site, detail=[o.what + " @" + o.site for o in bad] or "single growth on every path")
-    ck.floor("growth sites", nsites, 20)
+    ck.floor("growth sites", nsites, 15)
 
 
 def neutral_transfer(f, e, efs):
